@@ -44,6 +44,10 @@ func (c *c02Case) source() string {
 			used["gauge gf\n"] = true
 		case "settime":
 			used["gauge gt\n"] = true
+		case "addassign-counter-int":
+			used["counter cn\n"] = true
+		case "addassign-counter-float":
+			used["counter cf\n"] = true
 		case "concat-string", "strcat":
 			used["text tx\n"] = true
 		case "strcmp":
@@ -52,7 +56,7 @@ func (c *c02Case) source() string {
 			used["counter d by k\n"] = true
 		}
 	}
-	for _, d := range []string{"gauge gi\n", "gauge gf\n", "gauge gt\n", "text tx\n", "counter d by k\n"} {
+	for _, d := range []string{"gauge gi\n", "gauge gf\n", "gauge gt\n", "counter cn\n", "counter cf\n", "text tx\n", "counter d by k\n"} {
 		if used[d] {
 			sb.WriteString(d)
 		}
@@ -70,6 +74,10 @@ func (c *c02Case) source() string {
 			fmt.Fprintf(&sb, "  gi += %s\n", e)
 		case "addassign-float":
 			fmt.Fprintf(&sb, "  gf += %s\n", e)
+		case "addassign-counter-int":
+			fmt.Fprintf(&sb, "  cn += %s\n", e)
+		case "addassign-counter-float":
+			fmt.Fprintf(&sb, "  cf += %s\n", e)
 		case "key":
 			fmt.Fprintf(&sb, "  d[%s]++\n", e)
 		case "strtol-base":
@@ -350,7 +358,7 @@ func c02Const(rt *rapid.T, wantFloat bool, d int) *gen.Expr {
 }
 
 func TestC02(t *testing.T) {
-	st := vstat.New("C02", "constant expression trees over Int/Float literals (negative, zero, fractional, large) and + - * / % ** (depth <= 3, all Int/Float pairings, redundant parentheses), placed as right side of = and += on Int and Float gauges, index key, both sides of comparisons, alone as a condition and after '&&' in one (accepted by both compiles or by neither), strtol base, settime argument, and partially constant trees around captures; 1-3 lines; plus the exhaustive cross product operator x type pair x value grid; optimised vs unoptimised compile of the same source; non-trivial = a foldable node, both compiles succeed, and the statement executes (a metric changes); distinct by (source, lines)")
+	st := vstat.New("C02", "constant expression trees over Int/Float literals (negative, zero, fractional, large) and + - * / % ** (depth <= 3, all Int/Float pairings, redundant parentheses), placed as right side of = and += on Int and Float gauges and of += on counters, as a constant zero factor of an operand that may fail at run time, index key, both sides of comparisons, alone as a condition and after '&&' in one (accepted by both compiles or by neither), strtol base, settime argument, and partially constant trees around captures; 1-3 lines; plus the exhaustive cross product operator x type pair x value grid; optimised vs unoptimised compile of the same source; non-trivial = a foldable node, both compiles succeed, and the statement executes (a metric changes); distinct by (source, lines)")
 	st.Assumptions = []string{"the only model is the predicate 'some / or % has a right operand that is a constant evaluating to zero', used to decide whether an optimised-only rejection is allowed"}
 	runRaw := func(raw json.RawMessage) *vstat.Failure {
 		c, err := vstat.JSON[c02Case](raw)
@@ -371,11 +379,38 @@ func TestC02(t *testing.T) {
 			n := rapid.IntRange(1, 3).Draw(rt, "nstmts")
 			foldable := 0
 			for i := 0; i < n; i++ {
-				pos := rapid.SampledFrom([]string{"assign-int", "assign-float", "addassign-int", "addassign-float", "key", "key", "cond", "cond-cap", "strtol-base", "settime", "partial-int", "partial-float", "partial-int", "chain-float", "concat-string", "strcat", "strcmp", "cond-bare", "cond-and-bare"}).Draw(rt, "pos")
+				pos := rapid.SampledFrom([]string{"assign-int", "assign-float", "addassign-int", "addassign-float", "key", "key", "cond", "cond-cap", "strtol-base", "settime", "partial-int", "partial-float", "partial-int", "chain-float", "concat-string", "strcat", "strcmp", "cond-bare", "cond-and-bare", "addassign-counter-int", "addassign-counter-float", "annihilated"}).Draw(rt, "pos")
 				s := c02Stmt{Pos: pos}
 				capI := &gen.Expr{Op: "cap", Ty: gen.TInt, Name: "i"}
 				capF := &gen.Expr{Op: "cap", Ty: gen.TFloat, Name: "f"}
 				switch pos {
+				case "annihilated":
+					// a product with a constant zero: the other operand is still evaluated,
+					// and may raise a runtime error (a capture too large for an integer, a
+					// division by a captured zero)
+					zero := rapid.SampledFrom([]*gen.Expr{
+						{Op: "lit", Ty: gen.TInt, I: 0},
+						{Op: "paren", Ty: gen.TInt, Args: []*gen.Expr{{Op: "bin", Ty: gen.TInt, Name: "-", Args: []*gen.Expr{{Op: "lit", Ty: gen.TInt, I: 3}, {Op: "lit", Ty: gen.TInt, I: 3}}}}},
+						{Op: "paren", Ty: gen.TInt, Args: []*gen.Expr{{Op: "bin", Ty: gen.TInt, Name: "*", Args: []*gen.Expr{{Op: "lit", Ty: gen.TInt, I: 0}, {Op: "lit", Ty: gen.TInt, I: 7}}}}},
+					}).Draw(rt, "zero")
+					other := rapid.SampledFrom([]*gen.Expr{
+						capI,
+						{Op: "paren", Ty: gen.TInt, Args: []*gen.Expr{{Op: "bin", Ty: gen.TInt, Name: "/", Args: []*gen.Expr{{Op: "lit", Ty: gen.TInt, I: 100}, capI}}}},
+						{Op: "paren", Ty: gen.TInt, Args: []*gen.Expr{{Op: "bin", Ty: gen.TInt, Name: "%", Args: []*gen.Expr{{Op: "lit", Ty: gen.TInt, I: 7}, capI}}}},
+					}).Draw(rt, "other")
+					if rapid.Bool().Draw(rt, "zerofirst") {
+						s.E = &gen.Expr{Op: "bin", Ty: gen.TInt, Name: "*", Args: []*gen.Expr{zero, other}}
+					} else {
+						s.E = &gen.Expr{Op: "bin", Ty: gen.TInt, Name: "*", Args: []*gen.Expr{other, zero}}
+					}
+					s.Pos = rapid.SampledFrom([]string{"assign-int", "key"}).Draw(rt, "annpos")
+				case "addassign-counter-int":
+					s.E = c02Const(rt, false, 0)
+				case "addassign-counter-float":
+					s.E = c02Const(rt, true, 1)
+					if s.E.Op == "lit" {
+						s.E = &gen.Expr{Op: "bin", Ty: gen.TFloat, Name: rapid.SampledFrom(c02Ops).Draw(rt, "cfop"), Args: []*gen.Expr{c02Lit(rt, rapid.Bool().Draw(rt, "clf")), c02Lit(rt, true)}}
+					}
 				case "assign-int", "addassign-int", "strtol-base", "settime":
 					s.E = c02Const(rt, false, 0)
 				case "assign-float", "addassign-float":
@@ -457,7 +492,7 @@ func TestC02(t *testing.T) {
 			}
 			nl := rapid.IntRange(1, 3).Draw(rt, "nlines")
 			for i := 0; i < nl; i++ {
-				c.Lines = append(c.Lines, rapid.SampledFrom([]string{"5 2.5 ff", "0 0.0 10", "3 1.5 7", "junk", "2 0.5 z", "7 0.1 a", "1 9007199254740992.0 b", "s 2.5e+06", "s 1.25e-06", "s a", "s 2.5"}).Draw(rt, "line"))
+				c.Lines = append(c.Lines, rapid.SampledFrom([]string{"5 2.5 ff", "0 0.0 10", "3 1.5 7", "junk", "2 0.5 z", "7 0.1 a", "1 9007199254740992.0 b", "99999999999999999999 2.5 w", "0 1.5 zero", "s 2.5e+06", "s 1.25e-06", "s a", "s 2.5"}).Draw(rt, "line"))
 			}
 			f, res := runC02(c)
 			st.Eval()
